@@ -105,6 +105,14 @@ def _chains():
                     ["sweep"], ["set", 3, 101, 102]])
         out.append([["new", 100, 1], ["churn", 0, k, 1], ["new", 101, 1], ["churn", 20, k, 1], ["new", 102, 1],
                     ["set", 3, 101, 102], ["sweep"], ["set", 3, 100, 101]])
+    # related temporaries that die at once (nothing on the target holds them) and are NOT swept before a new instance
+    # at a recycled address asserts the same field towards the same surviving target
+    for c, f, tc in ((1, 3, 1), (2, 4, 2), (3, 5, 2), (4, 4, 3)):
+        for k in (2, 4, 8):
+            a = (lambda s_: ["rel", f, s_, 0]) if f in (4, 5) else (lambda s_: ["set", f, s_, 0])
+            out.append([["new", 0, tc], ["relchurn", 10, k, c, f, 0], ["new", 50, c], a(50), ["new", 51, c], a(51)])
+            out.append([["new", 0, tc], ["new", 1, c], a(1), ["drop", 1], ["relchurn", 10, k, c, f, 0],
+                        ["relchurn", 30, k, c, f, 0], ["new", 50, c], a(50)])
     for perm in itertools.permutations([(3, 2), (2, 1), (1, 0)]):
         ops = [["new", i, 1] for i in range(4)]
         ops += [["set", 3, a, b] for a, b in perm]
@@ -123,13 +131,15 @@ def generate(rng, tier, n):
         if i % 3 != 2:
             # garbage prefix (everything created in it is dropped), then assertions on new instances
             gp = _sg.Gen(rng, classes=(1, 1, 2, 3))
-            prefix = gp.history(rng.randint(3, 10), w_query=0, w_clear=0, w_sweep=0.5, w_churn=rng.choice([0.0, 0.5]))
+            prefix = gp.history(rng.randint(3, 10), w_query=0, w_clear=0, w_sweep=0.5, w_churn=rng.choice([0.0, 0.5]),
+                                w_relchurn=rng.choice([0.0, 0.6]))
             for o in list(gp.held):
                 prefix.append(["drop", o])
             if rng.random() < 0.6:
                 prefix.append(["sweep"])
             gs = _sg.Gen(rng, classes=(1, 1, 2, 3), first_label=100)
-            suffix = gs.history(rng.randint(3, 10), w_query=0, w_clear=0, w_drop=0.5, w_sweep=0.3)
+            suffix = gs.history(rng.randint(3, 10), w_query=0, w_clear=0, w_drop=0.5, w_sweep=0.3,
+                                w_relchurn=rng.choice([0.0, 0.0, 0.8]))
             cases.append(_case(prefix + suffix, ("random", "after-prefix"), "random"))
             cases.append(_case(suffix, ("random", "fresh"), "random"))
         else:
